@@ -654,6 +654,12 @@ fn as_timeouts_leg(ctx: &Ctx) {
     scripts.push(one(vec![link("v"), cmd("v", "1"), act(&["@laterv{d:13,v:2}"]), w(6), noop(), w(6), w(2), w(3), w(6)]));
     scripts.push(one(vec![link("v"), act(&["@laterv{d:4,v:1}", "@laterv{d:8,v:2}", "@laterv{d:12,v:3}"]), w(5), w(5), w(5), w(5), w(5)]));
     scripts.push(one(vec![link("v"), act(&["@laterv{d:9,v:1}"]), w(5), noop(), w(5), w(5), noop(), w(5)]));
+    // HTTP requests (for a lane that does not exist: answered by the HTTP task itself) keep only the
+    // HTTP task busy
+    let http = || Step::Http("zz".into());
+    scripts.push(one(vec![link("v"), cmd("v", "1"), w(6), http(), w(6), http(), w(6), http(), w(6)]));
+    scripts.push(one(vec![link("v"), w(11), http(), w(5), cmd("v", "1"), w(6), http(), w(6)]));
+    scripts.push(one(vec![http(), w(6), http(), w(6), http(), w(6), http()]));
     // two remotes: one keeps the read task busy, the other makes lane events
     let every = if quick { 3 } else { 1 };
     for (i, s) in interleavings(&[vec![link("v"), w(6), cmd("v", "1")], vec![noop(), w(6), noop()]]).into_iter().enumerate() {
@@ -726,7 +732,7 @@ fn main() {
     as_timeouts_leg(&ctx);
     c07::run_timeouts_leg(&ctx);
     wt::run_leg(&ctx);
-    ctx.assume("system legs: the clock moves by scripted partial advances (agent runtime: also while the runtime has work pending, i.e. it was not scheduled for a while; downlink runtime: only while it has nothing to do) and by full ticks at quiescence; the HTTP task never receives a request");
+    ctx.assume("system legs: the clock moves by scripted partial advances (agent runtime: also while the runtime has work pending, i.e. it was not scheduled for a while; downlink runtime: only while it has nothing to do) and by full ticks at quiescence");
     ctx.assume("loom models the C11 memory orderings of the AtomicU8; the AtomicWaker of the futures crate is replaced by a mutex-protected waker cell (its register/wake contract, not its implementation)");
     ctx.assume("Voter is !Sync: each voter is used by one thread (Cell<bool> stays a plain cell)");
     ctx.finish(
